@@ -218,3 +218,20 @@ def c09(prop, tier, t0):
         "'all byte strings up to 64 KiB' cannot be enumerated: the bound is the shapes listed in 'rule', one per parsing path visible in the code",
         "a hang is reported only after a single call stalls for 120 s",
     ], t0)
+
+
+@check("C10")
+def c10(prop, tier, t0):
+    binary, bt = vlib.build("c10")
+    m = vlib.merge(sharded(binary, tier, vlib.NCPU))
+    cov = generic_cov(m, "a structured description (collision mode, exit sequence, identifier, defaults, action mapping, colours, 1-3 mappings x 1-2 sub-handlers, key entries by name/hex with notes by number/name and offsets absent/0/15, "
+                         "every analog type with every optional field present/absent incl. offsets, flip, deadzone_at_center, deadzone sources) is expanded completely per section and pairwise across sections; each description is rendered "
+                         "to TOML and, independently, to the expected configuration; the real ParseData result is compared fact by fact; every single-field invalidation (unknown field/key/note/action/type/mode, out-of-range note, "
+                         "controller, offset, velocity, channel, missing default mapping) of a spread of bases (thorough: all) must be rejected. distinct_nontrivial = distinct accepted descriptions + distinct rejected invalidation kinds.",
+                      {"build_s": round(bt, 1)})
+    return vlib.finish(prop, tier, "exploration", m, cov, [
+        "absence may be represented as nil or empty map; a missing default_deadzone as 0 or as no entry",
+        "controller numbers 120-127 are not judged (rejecting them, as the parser does, or accepting them faithfully are both accepted)",
+        "the same key given twice (by name and by hex code) is not generated (map iteration would decide the winner)",
+        "offsets on type=action axes and channel_offset_negative on pitch_bend axes are not compared",
+    ], t0)
